@@ -28,7 +28,8 @@ LEVEL = {
                "function inside the async-with with all arguments, returns its result and catches nothing; (R15.2) the "
                "generator-based manager re-creates itself from the stored (func, args, kwds) and builds a fresh generator "
                "per instance; (R15.3) contextmanager() builds a new manager per helper call; (R15.4) subclasses with "
-               "one-shot state override _recreate_cm.",
+               "one-shot state override _recreate_cm; (R15.5) each call's exit passes the body's exception to the context "
+               "and honours suppression (C13's exit table, shared).",
     "not_decided": "that enter/exit pair up at run time is the language's async-with guarantee; what user-defined "
                    "ContextDecorator subclasses do in _recreate_cm.",
     "technique": "static analysis: structural rules over the decorator wrapper and its re-creation chain",
@@ -45,6 +46,13 @@ def run(ctx) -> None:
     r15_2(ctx)
     r15_3(ctx)
     r15_4(ctx)
+    # the exit every decorated call performs is the generator-based manager's: "exits it with the
+    # body's exception ... propagates unless the context suppresses it" is C13's decision table
+    from . import c13
+    from .common import Relabel
+    ctx.rule("R15.5", "the exit of each decorated call hands the body's exception to the context and honours its decision "
+                      "(the contextmanager exit table of C13, shared)")
+    c13.run(Relabel(ctx, "R15.5"))
 
 
 def r15_1(ctx) -> None:
